@@ -7,6 +7,7 @@ import os
 import stat
 import sys
 import threading
+import time
 
 PY = sys.executable
 
@@ -24,7 +25,13 @@ sys.exit(int(os.environ.get("VERIF_ARGV_RC", "0")))
 """
 
 _EXITN = """#!{py} -S
-import sys
+import sys, os
+log = os.environ.get("VERIF_EXITN_LOG")
+if log:
+    fd = os.open(log, os.O_WRONLY | os.O_APPEND | os.O_CREAT, 0o644)
+    import time
+    os.write(fd, (repr(time.time()) + " " + " ".join(sys.argv[2:]) + "\\n").encode())
+    os.close(fd)
 sys.exit(int(sys.argv[1]) if len(sys.argv) > 1 else 0)
 """
 
@@ -145,7 +152,7 @@ class Recorder:
                     data = f"<stdin error {type(e).__name__}>"
             with rec.lock:
                 rec.seq += 1
-                rec.log.append({"seq": rec.seq, "name": name, "argv": list(args), "stdin": data, "thread": threading.current_thread().name})
+                rec.log.append({"seq": rec.seq, "t": time.time(), "name": name, "argv": list(args), "stdin": data, "thread": threading.current_thread().name})
             if out is not None and stdout is not None:
                 stdout.write(out)
             return rc(args) if callable(rc) else rc
